@@ -187,17 +187,18 @@ def ref_pairs(st):
 
 
 def ref_unicode_pairs(data):
-    """what the Unicode subtables of supported formats of a font file define: {char: glyph}; None when there is none"""
+    """per usable (Unicode platform, supported format) subtable of a font file, in file order: {char: glyph != 0};
+    None when the file has no cmap table"""
     tabs = read_tables(data)
     if b"cmap" not in tabs:
         return None
-    out = {}
+    out = []
     for st in parse_cmap(data, tabs[b"cmap"][0]):
         if is_unicode(st["p"], st["e"]):
             p = ref_pairs(st)
             if p is not None:
-                out.update(p)
-    return out or None
+                out.append(p)
+    return out
 
 
 def self_check():
@@ -209,6 +210,8 @@ def self_check():
     f2 = write_format2({0x81: 1}, [{"first": 0x41, "count": 2, "delta": 0, "roff": 2 * (8 - 3)},
                                    {"first": 0x40, "count": 2, "delta": 3, "roff": 2 * (8 + 2 - 7)}], [5, 0, 65534, 6])
     font = font_file([(b"cmap", cmap_table([(1, 0, f0), (3, 1, f4), (0, 3, f2)]))])
+    if ref_unicode_pairs(font) != [{32: 7, 34: 9, 36: 5}, {0x41: 5, 0x8140: 1, 0x8141: 9}]:
+        raise MachineryError("TrueType cmap reader self-check failed (subtable selection)")
     got = {(s["p"], s["e"]): ref_pairs(s) for s in parse_cmap(font, read_tables(font)[b"cmap"][0])}
     want = {(1, 0): {65: 3, 66: 1}, (3, 1): {32: 7, 34: 9, 36: 5}, (0, 3): {0x41: 5, 0x8140: 1, 0x8141: 9}}
     if got != want:
